@@ -55,6 +55,26 @@ static void scenario() {
             tg.run([&] { tbb::task::suspend([&](tbb::task::suspend_point p) { publish(1, p); }); after_resume(1); });
             tg.wait(); if (cont[0] != 1 || cont[1] != 1) vf_fail("wait returned early: %d %d", cont[0], cont[1]); });
         vf_join(r); vf_window(0); }
+    else if (streq(k, "iso_wait")) {
+        // one-slot arena: T3 (a task of group `inner`) suspends, the thread goes on on a coroutine and runs T2, which waits for `inner` INSIDE an isolated
+        // region; a foreign thread resumes T3: the resume request must be picked up by the isolated waiter (nobody else can)
+        tbb::task_arena a1(1);
+        int r = spawn([&] { (void)tbb::this_task_arena::max_concurrency(); vf_gate_wait(); tbb::task::suspend_point p = take(0); if (late) settle(); resumed[0] = 1; tbb::task::resume(p); });
+        while (vf_gate_count() < 1) vf_yield();
+        vf_window(1); vf_gate_open();
+        a1.execute([&] { tbb::task_group inner, outer;
+            outer.run([&] { tbb::this_task_arena::isolate([&] { inner.wait(); if (cont[0] != 1) vf_fail("the isolated wait returned while the suspended task of its group had continued %d times", cont[0]); }); });
+            inner.run([&] { tbb::task::suspend([&](tbb::task::suspend_point p) { publish(0, p); }); after_resume(0); });
+            outer.wait(); inner.wait(); if (cont[0] != 1) vf_fail("wait returned while the suspended task had continued %d times", cont[0]); });
+        vf_join(r); vf_window(0); }
+    else if (streq(k, "iso_then_plain")) {
+        // one thread: a first suspension happens inside an isolated region (the coroutine it creates is cached by the arena); later suspensions outside any
+        // isolation reuse that coroutine, and their suspend callback spawns the task that calls resume(): the suspended thread must run it itself
+        tbb::task_arena a1(1); vf_window(1);
+        a1.execute([&] { tbb::this_task_arena::isolate([&] { tbb::task_group g; g.run_and_wait([&] { tbb::task::suspend([&](tbb::task::suspend_point p) { resumed[0] = 1; tbb::task::resume(p); }); after_resume(0); }); }); });
+        for (int round = 0; round < 2; round++) { cont[1] = 0; resumed[1] = 0;
+            a1.execute([&] { tbb::task_group g; g.run_and_wait([&] { tbb::task::suspend([&](tbb::task::suspend_point p) { g.run([&, p] { resumed[1] = 1; tbb::task::resume(p); }); }); after_resume(1); }); if (cont[1] != 1) vf_fail("run_and_wait returned while the suspended task had continued %d times", cont[1]); }); }
+        vf_window(0); }
     else if (streq(k, "critical")) {
         // the suspension happens inside a CRITICAL task (body of a flow-graph node with a priority) in an arena of one slot; the foreign
         // thread resumes late, when the only thread of the arena sleeps: the resume task travels through the critical stream and must still wake it
